@@ -21,6 +21,18 @@ CLAIMED = {
         design='§6 C08, §5 model B',
         note=COMMON_NOTE + 'Assumes F2 (publishing never suspends), which the permuting-loop runs exercise.',
         technique='Lean 4 invariant proof by induction over operation lists + differential correspondence (hand-written model)'),
+    'C13': dict(
+        text=('Theorems over model K (ReadLinesByKey/AssignKey/peek write wrapper) for every sequence of (key, text) writes — any '
+              'interleaving of keys, any splitting, any characters: every reported piece ends with a newline; per key the reported '
+              'text is, in order, exactly the written text up to the last newline (nothing lost, nothing duplicated); writes '
+              'without a current trace are not reported; the real stdout receives every write unchanged. Tied to /repo by exact '
+              'differential correspondence with the real peek_stdout_by_key on all short write sequences and random unicode ones, '
+              'plus generated scripts printing from threads and asyncio tasks through the real child against an oracle '
+              '(attribution, whole lines, no debugger text, real stdout complete).'),
+        design='§6 C13, §5 model K',
+        note=COMMON_NOTE + 'Which trace number is current at a write is model D1 (C06); absence of Pdb text in reported output is '
+             'checked on real-child runs only (Pdb writes to its private StdInOut stream).',
+        technique='Lean 4 invariant proof over write lists + differential correspondence (hand-written model) + real-child oracle'),
 }
 
 REASON_TODO = 'check not built yet in this revision of /verif (planned, see DESIGN.md §6); not claimed until its theorems and correspondence exist'
